@@ -95,11 +95,12 @@ def check_account_proof(proof: bytes, shrd_blk: BlockIdExt, address: "Address", 
 
     state_cell = proof_cells[1]
 
-    for proof_cell in proof_cells:
-        if proof_cell.type_ != CellTypes.merkle_proof:
-            raise ProofError(f'Expected Merkle proof Cell, got {proof_cell.type_} Cell type')
+    # both roots are Merkle proofs: of the block, and of the state the block commits to
+    check_proof(proof_cells[0], shrd_blk.root_hash)
 
     state_hash = check_block_header_proof(proof_cells[0][0], shrd_blk.root_hash, True)
+
+    check_proof(state_cell, state_hash)
 
     if state_cell[0].get_hash(0) != state_hash:
         raise ProofError('state hashes mismatch')
